@@ -149,6 +149,7 @@ SemSum(mods) ==
      delta |-> FSum([ k \in 1..Len(ss) |-> ss[k].delta ]),
      sugars |-> FoldLeft(LAMBDA acc, x : acc + x.sugars, 0, ss)]
 
+SemMass(s, mono) == FAdd(CompMass(s.comp, mono), s.delta)
 SemAdd(a, b) == [ok |-> a.ok /\ b.ok, comp |-> CAdd(a.comp, b.comp), delta |-> FAdd(a.delta, b.delta),
                  sugars |-> a.sugars + b.sugars]
 SemZero == [ok |-> TRUE, comp |-> EmptyComp, delta |-> FZero, sugars |-> 0]
